@@ -76,3 +76,12 @@ Theorem C08_macro_plays_exactly_its_list : forall evs l s,
                 ss_remaining s' = [] /\ fake_keys l' = last (play evs (fake_keys l)) (fake_keys l).
 Proof. exact macro_ends_as_spelled. Qed.
 Print Assumptions C08_macro_plays_exactly_its_list.
+
+(* "regardless of other keys typed meanwhile": the release sweep that a physical key release runs over the layout states
+   (State::release, with or without the clear-on-next-release conjunct) removes no macro-held key, whatever the released
+   position was bound to - also when it produced the same key code as a key the macro holds *)
+Theorem C08_physical_release_keeps_macro_keys : forall c skip sts cu,
+  filter_map (fun s => match s with FakeKey k => Some k | _ => None end) (fst (release_states c skip sts cu)) =
+  filter_map (fun s => match s with FakeKey k => Some k | _ => None end) sts.
+Proof. exact release_states_keeps_fake. Qed.
+Print Assumptions C08_physical_release_keeps_macro_keys.
